@@ -563,7 +563,8 @@ class _Fn:
                 return self.construct(self.f.cls, args, kw, allv, e, handlers, dirty)
             if n in prog.classes:
                 return self.construct(n, args, kw, allv, e, handlers, dirty)
-            if n in prog.funcs and prog.funcs[n].cls is None:
+            if n in prog.funcs and prog.funcs[n].cls is None and not (isinstance(ev_, Val) or prog.shadowed(self.f, n)):
+                # (a parameter / local that holds a callable shadows a package function of the same name)
                 return self.apply(n, args, kw, e, handlers, dirty)
             if n in self.eng.exc_bases or n.endswith("Error"):
                 return NONE, dirty
